@@ -1549,7 +1549,7 @@ func r19AllocUnderDeferredUnlock(c *core.Ctx, p *load.Program, sh *blobShape) {
 		// outside the critical section the allocation still has to be survivable (an error, not a panic); under the
 		// lock the Unlock must be deferred as well
 		c.Check(recovers && (deferredUnlock || !underLock), "R19.15", key, p.Pos(alloc.Pos()), "the mutex is released by a deferred Unlock and the allocation panic is recovered into an error",
-			fmt.Sprintf("%s.%s allocates a slice whose size the caller controls while holding the blob's mutex (deferred Unlock: %v, recover: %v): for a size the runtime cannot serve (Truncate(1<<62) on a handle grows by that much) make panics — the out-of-range argument panics instead of returning an error, and with an explicit Unlock the mutex stays locked, so every later operation on the file blocks for ever", tk, mn, deferredUnlock, recovers))
+			fmt.Sprintf("%s.%s allocates a slice whose size the caller controls (deferred Unlock: %v, recover: %v; the Unlock matters where the mutex is held at that point): for a size the runtime cannot serve (Truncate(1<<62) on a handle grows by that much) make panics — the out-of-range argument panics instead of returning an error, and with an explicit Unlock the mutex stays locked, so every later operation on the file blocks for ever", tk, mn, deferredUnlock, recovers))
 	}
 }
 
